@@ -104,6 +104,9 @@ func newHostileEnv(format string, seed int64) (*hostileEnv, error) {
 				if hostileBigFile {
 					n = 16384 + 2000 + rng.Intn(3000)
 				}
+			} else if i == nf-1 {
+				// the last file fits one slice
+				n = 1 + (n-1)%slice
 			}
 			set.Files = append(set.Files, scen.File{Name: []string{"a.bin", "sub/b.bin", "c c.txt"}[i], Data: scen.GenData(rng, "random", n, slice)})
 		}
